@@ -50,7 +50,7 @@ func c11Run(c *core.Case, o *core.Outcome) {
 	var p c11Params
 	c.Params(&p)
 	r := c.Rng("gauss")
-	freqs := []time.Duration{100 * time.Millisecond, time.Second, 5 * time.Second, time.Minute}
+	freqs := []time.Duration{100 * time.Millisecond, time.Second, 5 * time.Second, time.Minute, time.Minute, 5 * time.Minute, 10 * time.Minute}
 	worst := 0.0
 	for si := 0; si < p.Sets && o.Verdict != core.Violated; si++ {
 		f := freqs[r.IntN(len(freqs))]
@@ -66,6 +66,13 @@ func c11Run(c *core.Case, o *core.Outcome) {
 		vol := math.Floor(math.Exp(r.Float64() * math.Log(1e7)))
 		if r.IntN(10) == 0 {
 			vol = float64(1 + r.IntN(20))
+		}
+		if r.IntN(8) == 0 {
+			// large volumes (e.g. what --peak-rate 1400/s yields) with any tick
+			vol = math.Floor(1e7 * math.Exp(r.Float64()*math.Log(100)))
+		}
+		if f >= time.Minute && n > 3000 {
+			n = 3000
 		}
 		var peak time.Duration
 		switch r.IntN(5) {
@@ -260,7 +267,7 @@ func c11Run(c *core.Case, o *core.Outcome) {
 			} else if sigma >= R {
 				sc = "max"
 			}
-			o.Sig("api=%v:w=%d:f=%v:v=1e%d:n=2^%d:peak=%s:sigma=%s", viaRates, nw, f, int(math.Log10(vol)), int(math.Log2(float64(n))), pc, sc)
+			o.Sig("api=%v:w=%d:f=%v:v=1e%d:n=2^%d:peak=%s:sigma=%s", viaRates, nw > 0, f, int(math.Log10(vol)), int(math.Log2(float64(n)))/2*2, pc, sc)
 		}
 		if si == 0 {
 			o.Sample = map[string]any{"settings": desc, "window_sums": sums, "error_over_bound": bestErr}
